@@ -5,7 +5,7 @@ from .core import Report
 
 
 def run_check(prop, tier, rule, assumptions, mc_runs, groups, prefixes, sig_of, exhaustive=True,
-              drift_prefix="DRIFT", level="model_checking", extra=None, recs=None, judge_module=None):
+              drift_prefix="DRIFT", level="model_checking", extra=None, recs=None, judge_module=None, symbolic=None):
     """groups: list of (judge module, records).  Every record is judged by TLC; failed clauses whose name starts with one
     of `prefixes` are violations of `prop`, clauses starting with DRIFT are informational"""
     if recs is not None:
@@ -18,6 +18,8 @@ def run_check(prop, tier, rule, assumptions, mc_runs, groups, prefixes, sig_of, 
         core.tlc_must_pass(res, "%s %s" % (module, cfg))
         rep.add_tlc("%s/%s" % (module, cfg), res)
     rep.exhaustive = exhaustive
+    if symbolic:        # (module, invariants, note): the clauses for ALL values (Apalache), in addition to the TLC instances
+        core.apalache_suite(rep, *symbolic)
     if extra:
         rep.extra.update(extra)
     ndrift = 0
